@@ -29,7 +29,7 @@ import (
 )
 
 type vkC13Ev struct {
-	Kind string `json:"kind"` // ask, zonefail, zoneclear, adv
+	Kind string `json:"kind"` // ask, store, zonefail, zoneclear, adv
 	Q    int    `json:"q,omitempty"`
 	Up   string `json:"up,omitempty"` // fail, ok, local-attempt, local-cancel, local-besteffort, local-work, refused
 	Zone string `json:"zone,omitempty"`
@@ -40,6 +40,8 @@ func (e vkC13Ev) String() string {
 	switch e.Kind {
 	case "ask":
 		return fmt.Sprintf("ask(q%d,%s)", e.Q, e.Up)
+	case "store":
+		return fmt.Sprintf("store(q%d,%s)", e.Q, e.Up)
 	case "zonefail", "zoneclear":
 		return fmt.Sprintf("%s(%s)", e.Kind, e.Zone)
 	case "adv":
@@ -84,6 +86,9 @@ func vkC13Events(thorough bool) []vkC13Ev {
 	for _, up := range []string{"local-attempt", "local-cancel", "local-besteffort", "local-work"} {
 		evs = append(evs, vkC13Ev{Kind: "ask", Q: 0, Up: up})
 	}
+	// the resolver's write-back of an internal sub-query (DS / DNSKEY / name-server address lookups store their
+	// result through middleware.CutStore, not through the client-facing response writer)
+	evs = append(evs, vkC13Ev{Kind: "store", Q: 0, Up: "ok"})
 	evs = append(evs, vkC13Ev{Kind: "zonefail", Zone: "z.t."}, vkC13Ev{Kind: "zoneclear", Zone: "z.t."})
 	for _, d := range []int{1, 2, 3, 5, 9} {
 		evs = append(evs, vkC13Ev{Kind: "adv", D: d})
@@ -322,6 +327,25 @@ func (w *vkC13World) apply(ev vkC13Ev) (string, string) {
 		w.c.store.ClearZoneFailure(dns.Question{Name: "a." + ev.Zone, Qtype: dns.TypeA, Qclass: dns.ClassINET}, ev.Zone)
 		delete(w.keys, fmt.Sprintf("z|%s|%d", ev.Zone, dns.ClassINET))
 		return w.probeAll(), "zoneclear"
+	case "store":
+		q := vkC13Qs[ev.Q]
+		req := new(dns.Msg)
+		req.SetQuestion(q.Name, q.Type)
+		req.Question[0].Qclass = q.Class
+		req.CheckingDisabled = q.CD
+		m := new(dns.Msg)
+		m.SetReply(req)
+		m.RecursionAvailable = true
+		m.Answer = []dns.RR{vkMarkerRR(vkQ{Name: q.Name, Type: q.Type, Class: q.Class}, 1, 1)}
+		var cs middleware.CutStore = w.c.store
+		cs.SetFromResponseWithCut(m, false, time.Time{}, 0)
+		// a useful answer was obtained for the question: its back-off starts over. (Only the question's: the
+		// zone part of a sub-query's success is the resolver's own ClearZoneFailure call — event zoneclear.)
+		delete(w.keys, vkC13QKey(q))
+		if v := w.probeAll(); v != "" {
+			return "after " + ev.String() + ": " + v, "violation"
+		}
+		return "", "stored-" + ev.Up
 	case "ask":
 		q := vkC13Qs[ev.Q]
 		q.DO = ev.Q%2 == 0 // alternate EDNS / plain clients
@@ -472,7 +496,7 @@ func TestVerifC13Hist(t *testing.T) {
 	full := vkC13Events(c.Thorough())
 	var core []vkC13Ev
 	for _, e := range full {
-		if e.Kind != "ask" || ((e.Up == "fail" || e.Up == "ok") && (e.Q == 0 || e.Q == 2)) {
+		if (e.Kind != "ask" && e.Kind != "store") || ((e.Up == "fail" || e.Up == "ok") && (e.Q == 0 || e.Q == 2)) {
 			if e.Kind == "adv" && (e.D == 1 || e.D == 9) {
 				continue
 			}
